@@ -4,5 +4,6 @@ CONSTANTS
   BugShowReplacing = FALSE
   BugHideIgnored = FALSE
   BugKeepDirs = FALSE
+  BugDeleted = FALSE
 INVARIANT EventOk
 CHECK_DEADLOCK FALSE
